@@ -8,6 +8,11 @@ CLAIMED = {
   note="Trusted: std::sync::Mutex excludes (a guard's view is stable while held); stub contracts of EventLog::append, the sidecar tail reader and replay_events (cache fidelity is C04/C05); Uuid freshness; rules R1,R2,R9 (format! replaced by an opaque string); stub ContinuityStore struct with the real field names. Not decided: cross-restart histories, session/task stream writers not yet under contract, byte-level interleaving inside EventLog::append.",
   technique="Verus contracts with ghost timeless facts and effect-constraint preconditions on mechanically extracted ContinuityStore writers",
   ref="§4 C01"),
+ 'C08': dict(
+  text="Unbounded deductive proof (Verus/Z3) of the pure compile kernels, extracted from /repo on every run: select_recent_messages and select_recent_messages_after_seq return exactly the last min(limit, n) message frames that are at or before the cut point and after the selected checkpoint, oldest first, each carrying the frame's fields unchanged (stated against a recursive spec function over the whole event sequence, with a suffix lemma), for every event sequence, cut, checkpoint seq and limit; resolve_cutpoint_from_tail returns the anchor message's seq and the frame before the next message after it (or the head). Frames after the cut provably do not influence the result (they are not eligible in the spec). Partial: equivalence of the three input read paths, checkpoint hierarchy selection and reply-text assembly are not under contract.",
+  note="Trusted: assumed contracts of <[T]>::reverse and slice Iter::position, String==str equality axioms, slice length bound, vstd iterator/Vec/Option specs, Event/EventKind extracted mechanically from rip-kernel with serde attributes dropped (R1) and serde_json::Value opaque, rules R2,R4,R7 (for-with-continue to index loop). Not decided: None-case of the tail cut (anchor absent), resolve_context_compile_cutpoint_full and agreement between tail/window/full paths, compile_* assembly, races with appends.",
+  technique="Verus contracts against recursive spec functions (loop invariants, induction lemma) on mechanically extracted context-compile kernels",
+  ref="§4 C08"),
  'C13': dict(
   text="Unbounded deductive proof (Verus/Z3) on the five real path resolvers extracted from /repo on every run (builtins::resolve_path, tasks::logs::resolve_path, Workspace::safe_join, Workspace::to_relative, patch::parse_rel_path): whenever a resolver returns Ok, the input was relative and free of parent-directory segments and the resolved path lies lexically inside the workspace root (root's components followed only by normal names), for every path string. Closure contracts on the ParentDir tests are checked against the closure bodies. A failing obligation is replayed against the real std::path on an enumerated domain of path strings to attach a concrete input. Partial: effect-level obligations on the file-system calls of the tools (every fs call receives a resolved path) are not yet under contract.",
   note="Trusted: the lexical model of std::path (Unix semantics: components/is_absolute/join/strip_prefix stubs in prelude/path_model.rs), vstd, rules R1,R2,R4,R8. Not decided: symlinks, walkdir/grep internals, Workspace::apply_patch's own fs calls (closures capturing &mut are rejected by Verus), 'a refused request has no side effect' beyond the resolvers being pure, checkpoint id / session id validation on rewind.",
